@@ -244,9 +244,11 @@ func runCase(t ev.T, test string, c Case, confirmed bool) (suspectNoHeartBeat bo
 	box.Backend.KeepOps(false)
 	box.Backend.After = w.after
 	var hbIssued atomic.Int64 // heart-beat writes the holder has at least begun (counted when issued, whatever the disk does next)
+	var lastIssued atomic.Int64 // when the latest of them was issued
 	box.Backend.Before = func(op *fsx.Op) {
 		if op.Client == "holder" && op.Path == w.hbPath && op.Kind == "openfile" {
 			hbIssued.Add(1)
+			lastIssued.Store(time.Now().UnixNano())
 			// (the open is held up rather than the write: opening with O_TRUNC already refreshes the kernel's time stamp)
 			if c.SlowWriteMs > 0 {
 				time.Sleep(time.Duration(c.SlowWriteMs) * time.Millisecond)
@@ -418,9 +420,8 @@ func runCase(t ev.T, test string, c Case, confirmed bool) (suspectNoHeartBeat bo
 			} else {
 				rerr = holder.TryLock(life)
 			}
-			if rerr == nil && diedAt.Load() == 0 {
-				ev.Fail(t, prop, test, c, "the holder's second %s on the lock it already holds returned nil", c.HolderReattempt)
-			}
+			// (nothing is asserted about its result: after a legitimate stale verdict - a starved heart-beat - the lock may be gone)
+			_ = rerr
 			ev.Class("the holder tried to acquire again while holding")
 		}
 		time.Sleep(2 * time.Millisecond)
@@ -509,6 +510,26 @@ func runCase(t ev.T, test string, c Case, confirmed bool) (suspectNoHeartBeat bo
 	}
 	// ... and it is there at all: a holder that has been alive for two periods without even beginning to write a sign of life
 	// has no heart-beat (this does not depend on the disk: the attempt is counted when it is issued)
+	// ... and it does not stop while the holder lives: no attempt issued for two whole periods (plus what a slowed-down write
+	// takes) although the process saw no scheduling gap. A stale verdict is the occasion to look: a little later, so that a
+	// writer that is merely late has issued its next attempt
+	stoppedBeating := false
+	if !dead && herr == nil && len(vs) > 0 && hbIssued.Load() > 0 {
+		time.Sleep(30 * time.Millisecond)
+		silence := time.Since(time.Unix(0, lastIssued.Load()))
+		if silence > 2*period+time.Duration(c.SlowWriteMs)*time.Millisecond+10*time.Millisecond && time.Duration(maxGap.Load()) < 15*time.Millisecond {
+			stoppedBeating = true
+		}
+	}
+	if stoppedBeating {
+		suspectNoHeartBeat = true
+		if confirmed {
+			findings = append([]finding{{fmt.Sprintf("the heart-beat writer of the live holder has not issued a single write for %v (two periods = %v; third run in a row)", time.Since(time.Unix(0, lastIssued.Load())).Round(time.Millisecond), 2*period)}}, findings...)
+			inconclusive = false
+		} else {
+			ev.Class("the heart-beat writer went silent in one run (to be confirmed)")
+		}
+	}
 	if held := time.Since(acquired); !dead && herr == nil && held >= 2*period-5*time.Millisecond && hbIssued.Load() == 0 && time.Duration(maxGap.Load()) < 15*time.Millisecond {
 		suspectNoHeartBeat = true
 		if confirmed {
@@ -621,7 +642,7 @@ func genCase(t *rapid.T) Case {
 	if rapid.IntRange(0, 5).Draw(t, "obs-id") == 0 {
 		c.ObserverID = rapid.SampledFrom([]string{" L", "L ", "L\n", "\tL", " L \n"}).Draw(t, "obs-id-spelling")
 	}
-	if c.Periods >= 3 && rapid.IntRange(0, 4).Draw(t, "reattempt") == 0 {
+	if c.Periods >= 3 && rapid.IntRange(0, 2).Draw(t, "reattempt") == 0 {
 		c.HolderReattempt = rapid.SampledFrom([]string{"trylock", "lockwithtimeout"}).Draw(t, "reattempt-kind")
 	}
 	if rapid.IntRange(0, 4).Draw(t, "obs-stat-faults") == 0 {
